@@ -240,9 +240,12 @@ def train_yaml(cfg):
         out.append(f'    dcc-address: 0x{t["addr"][0]:02X}{t["addr"][1]:02X}')
         out.append(f'    dcc-speed-steps: {t["steps"]}')
         if t.get('calibration') is not None:
-            out.append('    calibration:')
-            for c in t['calibration']:
-                out.append(f'      - {c}')
+            if isinstance(t['calibration'], tuple):          # fault injection: ('scalar', text) - a calibration that is no list at all
+                out.append(f'    calibration: {t["calibration"][1]}'.rstrip())
+            else:
+                out.append('    calibration:')
+                for c in t['calibration']:
+                    out.append(f'      - {c}')
         if t.get('peripherals') is not None:
             if not t['peripherals']:
                 out.append('    peripherals: []')
@@ -347,7 +350,17 @@ def assign_tree(rng, cfg, absent_prob=0.2, unknown=1, depth3=True, unknown_hubs=
             if a in used:
                 continue
             used.add(a)
-            nodes.append((a, bytes([0x00, 0x01, 0x0D, 0xEE, 0xEE, u, 0x77])))
+            uid = bytes([0x00, 0x01, 0x0D, 0xEE, 0xEE, u, 0x77])
+            # near misses: an unknown node whose unique id differs from a configured board that is NOT on the bus in a single byte (a class
+            # bit, the class extension, the vendor or one product byte) is still not that board
+            absent = [b for b in boards if b['id'] not in placed]
+            if absent and rng.random() < 0.5:
+                base = bytearray(rng.choice(absent)['uid'])
+                i = rng.choice([0, 0, 1, 2, 3, 4, 5, 6])
+                base[i] ^= rng.choice([0x40, 0x20, 0x08, 0x04, 0x01]) if i == 0 else rng.randrange(1, 256)
+                if bytes(base) not in {bytes(b['uid']) for b in boards} | {u_ for _a, u_ in nodes}:
+                    uid = bytes(base)
+            nodes.append((a, uid))
             break
     return nodes
 
